@@ -1212,6 +1212,16 @@ func checkC09(p *Prog, r *Report) {
 func positiveEdge(i *ssa.If) (int, bool) {
 	c, neg := stripNot(i.Cond)
 	pos := -1
+	if _, contained, ok := indexAsContains(c); ok {
+		pos = 1
+		if contained {
+			pos = 0
+		}
+		if neg {
+			pos = 1 - pos
+		}
+		return pos, true
+	}
 	switch x := c.(type) {
 	case *ssa.BinOp:
 		_, cy := x.Y.(*ssa.Const)
